@@ -249,8 +249,13 @@ def boundaries(ctx, fi, loops):
       # after handling, the event becomes the state in force
       last = loop.body[-1]
       ok = isinstance(last, ast.Assign) and var in U.names_in(last.value)
-      ctx.ob('GRD/%s/update-state' % kind, fi, last, ok, 'the event becomes the state in force' if ok else 'the handled event is not recorded as the state in force',
-             construct='%s: state updated last' % kind)
+      # positively identified: the recording statement exists in the loop but only runs under a condition
+      nested = [s_ for s_ in U.walk_stmts(loop) if isinstance(s_, ast.Assign) and s_ not in loop.body and isinstance(s_.value, ast.Name) and s_.value.id == var and
+                isinstance(s_.targets[0], ast.Subscript) and U.enclosing_tests(fi.node, s_, stop_at=loop)] if not ok else []
+      ctx.ob('GRD/%s/update-state' % kind, fi, nested[0] if nested else last, ok, 'the event becomes the state in force' if ok else
+             ('the handled event is recorded as the state in force only under %s: an event that is not copied into the current piece is forgotten' %
+              ', '.join(norm_text(t) for t, _p in U.enclosing_tests(fi.node, nested[0], stop_at=loop)) if nested else 'the handled event is not recorded as the state in force'),
+             construct='%s: state updated last' % kind, definite=bool(nested))
     else:
       # unconditional placement
       ext = [s for s in loop.body if isinstance(s, ast.Expr) and isinstance(s.value, ast.Call) and isinstance(s.value.func, ast.Attribute) and s.value.func.attr == 'extend']
@@ -448,7 +453,7 @@ def _crossing(ctx, fi, tvar_text, rule):
     okp = bad is None and len(inits) == 2
   ctx.ob(rule + '/crossing-persistent', fi, bad or outer or wh, okp, 'crossing candidates and the scan index are carried across candidate splits (initialised once, only filtered / advanced in the loop)' if okp else
          'the crossing-note list or the scan index is re-initialised inside the loop over candidate splits: a note already passed by the index is forgotten and a later split inside it is not suppressed',
-         construct='crossing list and index persist across splits')
+         construct='crossing list and index persist across splits', definite=bad is not None)
   comp = [n for n in ast.walk(fn) if isinstance(n, ast.ListComp) and any('end_time' in norm_text(t) for t in n.generators[0].ifs)]
   ok = len(comp) == 1 and has_cmp(comp[0].generators[0].ifs, '%s.end_time > %s' % (comp[0].generators[0].target.id, tvar_text))
   ctx.ob(rule + '/crossing-end', fi, comp[0] if comp else fn, ok, 'a note crosses the split only if it ends strictly after it' if ok else
@@ -530,8 +535,18 @@ def split_time_changes(ctx):
       {norm_text(s) for s in last.orelse} == {'current_qpm = %s.qpm' % v}
   skips = [x for st in loop.body[1:] for x in ast.walk(st) if isinstance(x, (ast.Continue, ast.Break))]
   ok = ok and not skips
-  ctx.ob('SPLIT/time/running-update', fi, last, ok, 'the running values are updated even when the split was skipped' if ok else
-         'the running time signature / tempo is not updated unconditionally at the end of each change', construct='running values updated last')
+  # positively identified: a running-value update that is reached only when the split was not suppressed
+  upd = [s_ for s_ in U.walk_stmts(loop) if isinstance(s_, ast.Assign) and isinstance(s_.targets[0], ast.Name) and s_.targets[0].id.startswith('current_') and
+         isinstance(s_.value, ast.Attribute) and norm_text(s_.value.value) == v]
+  tainted = []
+  for s_ in upd:
+    for (t, pol) in U.path_conditions(fi.node, s_, stop_at=loop):
+      if any(isinstance(n_, ast.Name) and n_.id in ('skip_splits_inside_notes', 'notes_crossing_split') for n_ in ast.walk(t)):
+        tainted.append((s_, t))
+  ctx.ob('SPLIT/time/running-update', fi, tainted[0][0] if tainted else last, ok, 'the running values are updated even when the split was skipped' if ok else
+         ('`%s` is reached only when %s does not suppress the split: after a suppressed change the next event is compared with a stale value' % (
+             norm_text(tainted[0][0]), norm_text(tainted[0][1])) if tainted else
+          'the running time signature / tempo is not updated unconditionally at the end of each change'), construct='running values updated last', definite=bool(tainted))
   init = {norm_text(s) for s in fn.body if isinstance(s, ast.Assign)}
   ok = {'current_numerator = 4', 'current_denominator = 4', 'current_qpm = constants.DEFAULT_QUARTERS_PER_MINUTE'} <= init
   ctx.ob('SPLIT/time/initial', fi, fn, ok, 'the running values start at 4/4 and the default tempo' if ok else 'running values do not start at 4/4 / default qpm', construct='initial 4/4, default qpm')
